@@ -79,6 +79,13 @@ def o121(ctx):
         ctx.touched(q, "cryomask.spherical_mask", CMAP + "get_filter_radius")
         it, r = run_filter(ctx, name, K(0))
         f = r.ret
+        pad_ = [e for e in it.events if e.kind == "fourier" and e.name == "padded-transform"]
+        ctx.count(1)
+        if pad_:
+            ctx.finding(q, pad_[0].node, f"{name}: the transform is taken on a grid of another size than the map (fftn(x, s=...)): the filter then acts "
+                        "on a different periodic lattice -- it no longer commutes with circular shifts of the map and its gain is not a function "
+                        "of the map's own integer frequencies", pad_[0].node, m)
+            continue
         if not isinstance(f, imgdom.Filtered) or f.gain is None or f.axes is None:
             raise Unsupported(f"{name} does not return the inverse transform of (FFT(input) * filter array)", fn)
         ctx.count(1)
@@ -264,8 +271,9 @@ def o125(ctx):
     if not (isinstance(sg, ast.Name) and sg.id == fn.args.args[1].arg):
         ctx.finding(q, c, "the Gaussian width must be the requested sigma", c, m)
     for k in c.keywords:
-        if k.arg in ("mode", "preserve_range", "channel_axis") and not (isinstance(k.value, ast.Constant) and k.value.value in (None, "nearest")):
-            ctx.finding(q, c, f"unexpected option {k.arg} on the Gaussian", c, m)
+        if k.arg in ("mode", "preserve_range", "channel_axis", "cval") and not (isinstance(k.value, ast.Constant) and k.value.value in (None, "nearest")):
+            ctx.finding(q, c, f"option {k.arg}={ast.unparse(k.value)} on the Gaussian changes how the box border is treated: with the default "
+                        "(replicated border) the core of a solid touching a face stays 1, with a zero border it is averaged with zeros", c, m)
 
 
 def _obligations():
